@@ -331,6 +331,31 @@ def run(chk):
                                  {'groove': name, 'kwargs': kw2, 'round': rnd})
                     continue
                 built += 1
+                if rnd == 0:
+                    # resolution does not depend on how the numbers are carried (0-d float arrays: an in-place operation on an argument would show in the
+                    # caller's object), and a groove that was looked at (representations, plot) resolves to what it resolved to before
+                    from common import look_at, as_0d
+                    import pyroll.core as _pc
+                    before = np.array(g.contour_points, dtype=float, copy=True)
+                    kw0, orig = as_0d(kw2, LENGTH_KEYS | ANGLE_KEYS)
+                    try:
+                        g0 = getattr(_pc, name)(**kw0)
+                    except Exception as e:      # noqa
+                        chk.fail('input-type', f"{name}{kw2}: the same values handed in as 0-d float arrays are rejected: {type(e).__name__}: {str(e)[:100]}",
+                                 {'groove': name, 'kwargs': kw2})
+                        break
+                    chk.cov['evaluations'] += 1
+                    changed = {k: float(kw0[k]) for k, v in orig.items() if float(kw0[k]) != v}
+                    if changed or not same_contour(g, g0, 1e-9 * max(g.usable_width, g.depth)):
+                        chk.fail('input-type', f"{name}{kw2}: resolved from 0-d float arrays the groove differs from the one resolved from floats, or the caller's "
+                                 f"arrays were changed: {changed}", {'groove': name, 'kwargs': kw2})
+                        break
+                    look_at(g, html=(built % 5 == 0))
+                    after = np.asarray(g.contour_points, dtype=float)
+                    if after.shape != before.shape or np.any(after != before):
+                        chk.fail('observer-effect', f"{name}{kw2}: after the groove was looked at (repr, __attrs__, html / plot) its contour points changed (max "
+                                 f"{np.max(np.abs(after - before)) if after.shape == before.shape else 'shape'})", {'groove': name, 'kwargs': kw2})
+                        break
                 consistency(chk, name, kw2, g, f"round {rnd + 1}")
                 if chk.failures:
                     break
